@@ -258,6 +258,7 @@ func c01Check(r *Run, cfg any, hist []hop, label string) (illegal int) {
 // and no checker runs: tens of millions of Gets per minute reach windows of a few instructions.
 func c01Storm(r *Run, idx int) {
 	rng := r.Rng(int64(91000 + idx))
+	defer r.Case(fmt.Sprintf("storm %d pool=%v", idx, idx%3 == 2 && r.Args["racepass"] == ""))()
 	var seq atomic.Int64
 	b := theine.NewBuilder[int, int64]([]int64{1, 2, 4}[rng.Intn(3)]).UseEntryPool(idx%3 == 2 && r.Args["racepass"] == "")
 	c, err := b.Loading(func(ctx context.Context, k int) (theine.Loaded[int64], error) {
@@ -520,6 +521,7 @@ func runC01(r *Run) {
 			cfg.Pool = false
 		}
 		delayMode.Store(int32(cfg.Delay))
+		caseDone := r.Case(fmt.Sprintf("history %d kind=%s maxsize=%d clients=%d doorkeeper=%v pool=%v", n, cfg.Kind, cfg.MaxSize, cfg.Clients, cfg.Doorkeeper, cfg.Pool))
 		hist, err := c01History(cfg, rng.Int63())
 		if err != nil {
 			r.Broken("history: %v", err)
@@ -548,6 +550,7 @@ func runC01(r *Run) {
 			r.DistinctHash(hashStr(string(sig)))
 		}
 		c01Check(r, cfg, hist, fmt.Sprintf("history %d (%s dk=%v pool=%v M=%d, %d clients)", n, cfg.Kind, cfg.Doorkeeper, cfg.Pool, cfg.MaxSize, cfg.Clients))
+		caseDone()
 		if n < 2*r.NShards {
 			ex := hist
 			if len(ex) > 12 {
